@@ -288,11 +288,11 @@ class Session(BusSession):
 def run(ctx):
     quick = ctx.tier == 'quick'
     params = {'names': 1 if quick else 2, 'flags': [0, 1, 2, 3, 4, 5, 6, 7, 9]}
-    st = explore.bfs(ctx, FACTORY, params, max_depth=5 if quick else 7, ops_chunk=10)
+    st = explore.bfs(ctx, FACTORY, params, max_depth=30, ops_chunk=10)
     ctx.coverage.update({
         'states': st['states'], 'transitions': st['transitions'], 'traces_validated_against_impl': st['transitions'],
         'completed_depth': st['completed_depth'], 'fixpoint': st['fixpoint'], 'distinct_observations': st['distinct_obs'],
-        'bound': '3 clients + observer, %d name(s), 9 flag words, invalid targets, disconnect/reconnect; BFS to depth %d or fix-point' % (params['names'], 5 if quick else 7),
+        'bound': '3 clients + observer, %d name(s), 9 flag words, invalid targets, disconnect/reconnect; BFS to the fix-point (1 name: 1108 states) or the deadline' % params['names'],
         'state_key': 'canonical dump of the implementation (registry with per-owner flags, connection table, rules) with unique names renamed to client slots + model state',
     })
     ctx.assumptions = ['pyv/models/names.py transcribes the specification', 'same canonical dump => same future behaviour (the dump covers every field the name-ownership code reads)']
